@@ -387,6 +387,12 @@ func (t *Transformer) ReverseTranslate(v reflect.Value) (reflect.Value, error) {
 		mangledfieldOffset := 0
 		unmangledLayerVals := make([]FieldValueTuple, len(t.mState[manglerNum]))
 		for srcFieldIdx, srcFieldstate := range t.mState[manglerNum] {
+			if !ast.IsExported(srcFieldstate.in.Name) {
+				// TranslateType skipped this (unexported) field,
+				// so there is nothing to unmangle; the field
+				// is skipped again when the struct is reassembled.
+				continue
+			}
 			// slice down to just the mangled fields we're
 			// interested in for this unmangled field.
 			fvtuples := layerMangledVal[mangledfieldOffset : mangledfieldOffset+len(srcFieldstate.out)]
